@@ -40,6 +40,7 @@ type Result struct {
 	Exec      []Ev    // derivation-order action trace
 	Eager     []Ev    // chronological trace of every Act/Side reached
 	ErrTok    Tok     // first-furthest non-empty completed token
+	ErrTokNC  Tok     // the same among rule tokens only (parsers without a tree record no capture tokens)
 	Completed map[Tok]bool
 	Revisits  int // (rule, offset) pairs entered more than once
 	DiscPos   int // times consumed input was given back
@@ -96,7 +97,7 @@ func (in *Interp) Parse(entry string, input []rune) (res *Result) {
 	in.w = input
 	in.steps = 0
 	in.text = ""
-	in.res = &Result{ErrTok: Tok{"Unknown", 0, 0}, Completed: map[Tok]bool{}}
+	in.res = &Result{ErrTok: Tok{"Unknown", 0, 0}, ErrTokNC: Tok{"Unknown", 0, 0}, Completed: map[Tok]bool{}}
 	in.visits = map[visitKey]int{}
 	in.active = map[visitKey]bool{}
 	in.memo = nil
@@ -154,6 +155,9 @@ func (in *Interp) completed(t Tok) {
 	in.res.Completed[t] = true
 	if t.B != t.E && t.E > in.res.ErrTok.E {
 		in.res.ErrTok = t
+	}
+	if t.Name != "PegText" && t.B != t.E && t.E > in.res.ErrTokNC.E {
+		in.res.ErrTokNC = t
 	}
 }
 
